@@ -67,6 +67,18 @@ func (d *drv) addDataset(ds *ld.RDFDataset, h merklize.Hasher, input any) *rcase
 	if out.Class == "panic" || out.Class == "hang" {
 		d.rep.Fail("c01-"+out.Class, "EntriesFromRDFWithHasher: "+out.Msg, input)
 	}
+	// determinism: Go's map order over ds.Graphs differs between calls; the result must not
+	if len(ds.Graphs) > 1 && (out.Class == "ok" || out.Class == "err") {
+		first := renderViews(views, out)
+		for rep := 0; rep < 3; rep++ {
+			v2, o2 := mzrun.Entries(ds, h)
+			if renderViews(v2, o2) != first {
+				d.rep.Fail("c01-nondeterministic", "EntriesFromRDFWithHasher returned a different result for the same dataset", input)
+				break
+			}
+		}
+		d.rep.Count("determinism-checked")
+	}
 	return c
 }
 
@@ -113,7 +125,7 @@ func keys(m map[int]bool) []int {
 
 func (d *drv) docCase(doc *docgen.Doc, hi int) {
 	h := d.hs[hi]
-	input := map[string]any{"doc": json.RawMessage(doc.Bytes), "hasher": hi, "expect": doc.Expect, "why": doc.Why}
+	input := map[string]any{"doc": json.RawMessage(doc.Bytes), "hasher": hi, "expect": doc.Expect, "why": doc.Why, "facts": doc.Facts}
 	for f := range doc.Features {
 		d.rep.Count("feature:" + f)
 	}
@@ -128,7 +140,13 @@ func (d *drv) docCase(doc *docgen.Doc, hi int) {
 	}
 	c := d.addDataset(ds, h, input)
 	// full pipeline
-	mz, mo := mzrun.Merklize(doc.Bytes, merklize.WithHasher(h), merklize.WithDocumentLoader(d.loader))
+	mt, terr := newTree()
+	if terr != nil {
+		d.rep.Fail("c01-harness", "cannot create a tree: "+terr.Error(), input)
+		return
+	}
+	mz, mo := mzrun.Merklize(doc.Bytes, merklize.WithHasher(h), merklize.WithDocumentLoader(d.loader),
+		merklize.WithMerkleTree(merklize.MerkleTreeSQLAdapter(mt)))
 	d.rep.Count("merklize:" + mo.Class)
 	if mo.Class == "panic" || mo.Class == "hang" {
 		d.rep.Fail("c01-"+mo.Class, "MerklizeJSONLD: "+mo.Msg, input)
@@ -137,7 +155,13 @@ func (d *drv) docCase(doc *docgen.Doc, hi int) {
 	switch doc.Expect {
 	case "error":
 		if mo.Class == "ok" {
-			d.rep.Fail("c01-accepted-"+strings.SplitN(doc.Why, "-", 2)[0], "document without a unique path / unhashable value was merklized: "+doc.Why, input)
+			class := "c01-accepted-" + strings.SplitN(doc.Why, "-", 2)[0]
+			if selfReference(ds) != "" {
+				// defect candidate found in round 2 (see coq/RDF/README.md): a node whose own quad
+				// refers to it is not seen by the cycle guard when it is the root
+				class = "c01-accepted-self-reference"
+			}
+			d.rep.Fail(class, "document without a unique path / unhashable value was merklized: "+doc.Why, input)
 		}
 		return
 	case "model":
@@ -195,6 +219,14 @@ func (d *drv) docCase(doc *docgen.Doc, hi int) {
 			d.rep.Fail("c01-leaf-value", fmt.Sprintf("leaf of %v does not hold the entry's value", v.Parts), input)
 			break
 		}
+	}
+	// the tree itself: one leaf per entry, no other leaf
+	if msg := treeCheck(mt, c.views); msg != "" {
+		d.rep.Fail("c01-tree-leaves", msg, input)
+	}
+	// every fact the generator expects is provable under the generator's path and value
+	if msg := expectedProofs(mz, h, doc.Facts, c.views); msg != "" {
+		d.rep.Fail("c01-expected-proof", msg, input)
 	}
 	if d.rep.Evaluations%37 == 0 {
 		d.rep.Sample(map[string]any{"doc": string(doc.Bytes), "entries": len(c.views), "hasher": hi})
@@ -281,19 +313,90 @@ func (d *drv) rawDataset() (*ld.RDFDataset, string) {
 	return ds, kind
 }
 
-func dumpDataset(ds *ld.RDFDataset) any {
-	out := map[string][]string{}
-	for g, qs := range ds.Graphs {
-		out[g] = []string{}
+// rawCase: a hand-built dataset straight into EntriesFromRDFWithHasher. Besides the correspondence
+// with the model, oracles that need no model: indices, distinct keys, rejection of shared nodes.
+func (d *drv) rawCase(ds *ld.RDFDataset, kind string, hi int) {
+	d.rep.Count("raw:" + kind)
+	input := map[string]any{"raw": rawOfDataset(ds), "kind": kind, "hasher": hi}
+	b, _ := json.Marshal(input)
+	d.rep.Distinct(string(b))
+	c := d.addDataset(ds, d.hs[hi], input)
+	if c.out.Class != "ok" {
+		return
+	}
+	if msg := selfReference(ds); msg != "" {
+		d.rep.Fail("c01-accepted-self-reference", "dataset accepted although "+msg, input)
+		return
+	}
+	if msg := checkIndices(c.views); msg != "" {
+		d.rep.Fail("c01-indices", msg, input)
+	}
+	if msg := sharedInDataset(ds); msg != "" {
+		d.rep.Fail("c01-accepted-shared", "dataset accepted although "+msg, input)
+	}
+	// one entry per literal/IRI quad
+	n := 0
+	for _, qs := range ds.Graphs {
 		for _, q := range qs {
-			gn := ""
-			if q.Graph != nil {
-				gn = " " + q.Graph.GetValue()
+			if _, isBlank := q.Object.(*ld.BlankNode); !isBlank {
+				n++
 			}
-			out[g] = append(out[g], fmt.Sprintf("%T(%s) %s %T(%s)%s", q.Subject, q.Subject.GetValue(), q.Predicate.GetValue(), q.Object, q.Object.GetValue(), gn))
 		}
 	}
-	return out
+	if n != len(c.views) {
+		d.rep.Fail("c01-fact-count", fmt.Sprintf("dataset has %d literal/IRI quads, %d entries produced", n, len(c.views)), input)
+	}
+}
+
+// selfReference reports a quad whose object is its own subject (a node referring to itself).
+func selfReference(ds *ld.RDFDataset) string {
+	for g, qs := range ds.Graphs {
+		for _, q := range qs {
+			switch s := q.Subject.(type) {
+			case *ld.IRI:
+				if o, ok := q.Object.(*ld.IRI); ok && o.Value == s.Value {
+					return fmt.Sprintf("node %s of graph %s refers to itself", s.Value, g)
+				}
+			case *ld.BlankNode:
+				if o, ok := q.Object.(*ld.BlankNode); ok && o.Attribute == s.Attribute {
+					return fmt.Sprintf("node %s of graph %s refers to itself", s.Attribute, g)
+				}
+			}
+		}
+	}
+	return ""
+}
+
+// sharedInDataset reports a subject that is the object of two different quads of its own graph
+// (other than the quad asking), the situation the property says must be rejected.
+func sharedInDataset(ds *ld.RDFDataset) string {
+	key := func(n ld.Node) string {
+		switch x := n.(type) {
+		case *ld.IRI:
+			return "I" + x.Value
+		case *ld.BlankNode:
+			return "B" + x.Attribute
+		}
+		return ""
+	}
+	for g, qs := range ds.Graphs {
+		for i, q := range qs {
+			sk := key(q.Subject)
+			if sk == "" {
+				continue
+			}
+			refs := 0
+			for j, o := range qs {
+				if j != i && key(o.Object) == sk {
+					refs++
+				}
+			}
+			if refs > 1 {
+				return fmt.Sprintf("node %s of graph %s has %d referrers", sk[1:], g, refs)
+			}
+		}
+	}
+	return ""
 }
 
 const shardSize = 60
@@ -328,7 +431,7 @@ func (d *drv) writeShards() error {
 func Run(cfg *common.Config) (*common.Report, error) {
 	rep := common.NewReport("C01")
 	rep.Correspondence = "RDF.Run.rmismatches: entries_from_rdf (RDF/Model.v) vs merklize.EntriesFromRDFWithHasher on the dataset json-gold produced (and on hand-built datasets)"
-	rep.Rule = "documents generated from random schema trees (depth<=3; type-/property-scoped contexts, prefixes, aliases, typed/untyped literals, arrays, IRI/blank objects, named graphs, repeated values, inline or remote contexts) x 3 hashers; shared-node, cycle(1..4), empty-string documents; odd shapes; hand-built datasets (cycles, shared nodes, blank leaves, duplicate quads, IRI graph names, missing default graph, bad predicates, literal subjects, cross-graph references). distinct = distinct (document bytes, hasher) pairs; all are non-trivial (>= 1 quad)."
+	rep.Rule = "documents generated from random schema trees (depth<=3; type-/property-scoped contexts, prefixes, aliases, typed/untyped literals, arrays, IRI/blank objects, named graphs, repeated values, inline or remote contexts) x 3 hashers; shared-node, cycle(1..4), empty-string documents; odd shapes; hand-built datasets (cycles, shared nodes, blank leaves, duplicate quads, IRI graph names, missing default graph, bad predicates, literal subjects, cross-graph references); multi-graph documents (1..5 graphs under @graph-container properties) and multi-graph raw datasets (2..5 named graphs, labels whose byte-wise, numeric and insertion orders differ). distinct = distinct (document bytes, hasher) pairs; all are non-trivial (>= 1 quad)."
 	d := &drv{cfg: cfg, rep: rep, loader: ctxload.New(), fr: floats.New(), hs: hasherSet()}
 	g := docgen.New(cfg.Rng)
 	if cfg.Replay != "" {
@@ -338,18 +441,35 @@ func Run(cfg *common.Config) (*common.Report, error) {
 				Hasher int             `json:"hasher"`
 				Expect string          `json:"expect"`
 				Why    string          `json:"why"`
+				Facts  []docgen.Fact   `json:"facts"`
+				Raw    []rawGraph      `json:"raw"`
+				Kind   string          `json:"kind"`
 			} `json:"input"`
 		}
 		if err := common.ReadJSON(cfg.Replay, &rf); err != nil {
 			return nil, err
 		}
-		doc := &docgen.Doc{Bytes: rf.Input.Doc, Expect: "model", Why: rf.Input.Why, Features: map[string]bool{}}
-		d.docCase(doc, rf.Input.Hasher)
+		if rf.Input.Hasher < 0 || rf.Input.Hasher >= len(d.hs) {
+			rf.Input.Hasher = 0
+		}
+		if rf.Input.Raw != nil {
+			d.rawCase(datasetOfRaw(rf.Input.Raw), rf.Input.Kind, rf.Input.Hasher)
+		} else {
+			expect := rf.Input.Expect
+			if expect == "" || (expect == "ok" && rf.Input.Facts == nil) {
+				expect = "model"
+			}
+			doc := &docgen.Doc{Bytes: rf.Input.Doc, Expect: expect, Why: rf.Input.Why, Facts: rf.Input.Facts, Features: map[string]bool{}}
+			d.docCase(doc, rf.Input.Hasher)
+		}
 		for _, c := range d.cases {
 			fmt.Printf("replay: entries outcome=%s %s; %d entries\n", c.out.Class, c.out.Msg, len(c.views))
 			for _, v := range c.views {
 				fmt.Printf("  %v -> %s (%s)\n", v.Parts, docgen.RenderGoValue(v.Value), v.Datatype)
 			}
+		}
+		for _, f := range rep.Failures {
+			fmt.Printf("replay: FAIL [%s] %s\n", f.Class, f.What)
 		}
 		return rep, d.writeShards()
 	}
@@ -373,13 +493,15 @@ func Run(cfg *common.Config) (*common.Report, error) {
 		d.docCase(g.EmptyString(), 0)
 		d.docCase(g.Odd(), cfg.Rng.Intn(len(d.hs)))
 	}
+	for i := 0; i < cfg.Pick(30, 800); i++ {
+		d.docCase(d.multiGraphDoc(), cfg.Rng.Intn(len(d.hs)))
+	}
 	for i := 0; i < cfg.Pick(120, 3000); i++ {
 		ds, kind := d.rawDataset()
-		rep.Count("raw:" + kind)
-		input := map[string]any{"raw_dataset": dumpDataset(ds), "kind": kind}
-		b, _ := json.Marshal(input)
-		rep.Distinct(string(b))
-		d.addDataset(ds, d.hs[cfg.Rng.Intn(len(d.hs))], input)
+		d.rawCase(ds, kind, cfg.Rng.Intn(len(d.hs)))
+	}
+	for i := 0; i < cfg.Pick(30, 800); i++ {
+		d.rawCase(d.multiGraphRaw(), "multi-graph", cfg.Rng.Intn(len(d.hs)))
 	}
 	return rep, d.writeShards()
 }
